@@ -149,6 +149,20 @@ PROPS["C12"] = dict(
     assumptions=["signatures a reader does not validate by design (VHD cookie, VMDK(fh) on unknown magic = flat extent, inactive header copies) are not gates"],
 )
 
+PROPS["C19"] = dict(
+    engine="xmlsim", level="fault_enumeration", quick=0, thorough=0, quick_wall=300, thorough_wall=1200,
+    rule=("one evaluation = one (entry point, hostile-XML family, parameter, position, variant) document from an enumerated grid: "
+          "4 entry points (OVF, VBox, PVS, DiskDescriptor via HDD(path) on the simulated namespace) x {internal entities nested 1..12 deep, "
+          "quadratic blow-up, external general entities (simulated file, real file, http), external parameter entities, external "
+          "DTD subset with/without entities, declared-but-unused (general, parameter) entities} x {element, attribute} plus four control "
+          "documents; thorough adds 12 seeded textual variants each. distinct = (entry, family, parameter, position, outcome) tuples; "
+          "non-trivial = the document declares an entity."),
+    expected_probes=["xml.entry_" + e for e in ("ovf", "vbox", "pvs", "hdd")] + ["xml.outcome_refused", "xml.outcome_parsed"],
+    assumptions=["'refused' = the constructor raises any Exception", "network and file access are observed through sys.addaudithook and the simulated namespace's open log"],
+    real=["dissect.hypervisor descriptor parsers + disk.hdd.Descriptor", "defusedxml", "pyexpat"],
+    stubs=["namespace (SimFS) incl. the honeypot file", "hostile document generator"],
+)
+
 NOT_BUILT_REASON = "check not built yet in this session (see DESIGN.md section 11 for the build order); not claimed until its engine exists"
 
 NOT_APPLICABLE = {
@@ -163,6 +177,10 @@ _DISK_NOTE = ("trusted base: the writer stub's reading of the format, the refere
 _DISK_TECH = "deterministic simulation (stub writer peer + simulated storage + reference model oracle), seeded search, ddmin replay"
 
 MANIFEST_TEXT = {
+    "C19": dict(text="deterministic simulation with an enumerated grid of hostile XML documents at every XML entry point; oracle: refused, "
+                     "no OS open / honeypot read / network audit event, step and allocation budgets; control documents parse identically",
+                design_ref="DESIGN.md 4/C19", note="complete over the enumerated grid (families x depths x positions); the grid samples 'all XML documents'",
+                technique="deterministic simulation with fault enumeration (hostile XML families) + audit-hook / namespace monitors + step and allocation meters"),
     "C11": dict(text="deterministic simulation with enumerated faults on stored bytes (field-aware values, truncation points, corruption, "
                      "cycles, bombs, late faults) under a deterministic step meter and allocation meters; complete over the enumerated "
                      "plan, which is itself a sample of 'all byte strings'",
